@@ -17,6 +17,10 @@ type BatchedPrivateIssuer struct {
 }
 
 func NewBatchedPrivateIssuer(key *oprf.PrivateKey) *BatchedPrivateIssuer {
+	// The VOPRF key caches its public key on first use without synchronization.
+	// Compute it here so that the issuer is read-only once constructed.
+	key.Public()
+
 	return &BatchedPrivateIssuer{
 		tokenKey: key,
 	}
